@@ -92,10 +92,18 @@ def frames_for(pos, block):
 
 
 def judge(pos, cfg, lst, form, viols, outcomes):
-    validate, normalize, enc = cfg
+    validate, normalize, enc = cfg[:3]
+    switched = len(cfg) > 3
     client, state, btype, _ = POSITIONS[pos]
     cfgkey = (("validate_inbound_headers", validate), ("normalize_inbound_headers", normalize), ("header_encoding", enc))
+    if switched:
+        # the connection was built - and this stream received its first block - under the opposite switches; the application
+        # has changed its configuration since: the block is judged by the configuration in force when it arrives
+        cfgkey = (("validate_inbound_headers", not validate), ("normalize_inbound_headers", not normalize), ("header_encoding", enc))
     conn = corpus.clone(client, state, cfgkey)
+    if switched:
+        conn.config.validate_inbound_headers = validate
+        conn.config.normalize_inbound_headers = normalize
     eff = btype
     if btype in ("response", "info") and pos != "pushed-response":
         eff = "info" if HS.is_informational(lst) else "response"
@@ -117,10 +125,12 @@ def judge(pos, cfg, lst, form, viols, outcomes):
     enc_headers = [HeaderTuple(n, v) for n, v in lst] if form == "indexed" else [NeverIndexedHeaderTuple(n, v) for n, v in lst]
     block = hpack.Encoder().encode(enc_headers, huffman=(form == "indexed"))
     o = H.recv(conn, wire.ser(frames_for(pos, block)))
-    case = {"pos": pos, "cfg": [validate, normalize, enc], "form": form, "list": [[n.hex(), v.hex()] for n, v in lst]}
+    case = {"pos": pos, "cfg": [validate, normalize, enc] + (["switched"] if switched else []), "form": form, "list": [[n.hex(), v.hex()] for n, v in lst]}
 
     def bad(kind, msg, **sig):
         s = {"kind": kind, "btype": eff, "validate": validate, "normalize": normalize, "encoding": str(enc)}
+        if switched:
+            s["config_switched_midstream"] = True
         s.update(sig)
         k = repr(sorted(s.items()))
         if k not in viols:
@@ -255,6 +265,12 @@ def run(ctx):
             for i in range(ns):
                 jobs.append({"pos": pos, "cfg": [True, True, None], "tokset": "shell", "dist": 3, "part": "shell3", "shard": i,
                              "nshards": ns, "forms": ["ni"]})
+    # the validate / normalise switches changed by the application after the stream has received its first block
+    for pos in ("c-trailers", "s-trailers"):
+        for v in (True, False):
+            for nrm in (True, False):
+                jobs.append({"pos": pos, "cfg": [v, nrm, None, "switched"], "tokset": "full", "dist": 1, "part": "d1", "shard": 0,
+                             "nshards": 1, "forms": ["ni"]})
     # connections with different header_encoding values sharing a process (both orders, on different positions)
     jobs.append({"iso": True, "pos": "request", "order": ["latin-1", "utf-8", None, "latin-1"]})
     jobs.append({"iso": True, "pos": "response", "order": ["utf-8", "latin-1", None, "utf-8"]})
